@@ -458,6 +458,25 @@ def rule_K1(prog, fixture=False):
 
 
 # =================================================================================================
+_INSERT_FLAG = {}       # call node id -> ("pair", local id) | ("binding", binding id)
+
+
+def _insert_flag_outcome(cn, pol, flag):
+    """does the branch outcome (cn == pol) say that the insertion reported by `flag` happened (True) / did not (False) / nothing (None)"""
+    e = cn.strip_all()
+    while e.k == "UnaryOperator" and e.op == "!" and e.c:
+        pol = not pol
+        e = e.c[0].strip_all()
+    kind, vid = flag
+    if kind == "pair" and e.k == "MemberExpr" and e.decl and e.decl.get("n") == "second" and e.c:
+        b = e.c[0].strip_all()
+        if b.k == "DeclRefExpr" and b.decl and b.decl.get("id") == vid:
+            return pol
+    if kind == "binding" and e.k == "DeclRefExpr" and e.decl and e.decl.get("id") == vid:
+        return pol
+    return None
+
+
 def _container_effects(fn, list_field, map_field):
     """[(node, container, delta)] for calls on the two containers"""
     out = []
@@ -480,6 +499,16 @@ def _container_effects(fn, list_field, map_field):
         elif fld == map_field:
             if nm in MAP_ADD:
                 out.append((n, "map", +1))
+                # insert / emplace / try_emplace report through .second whether anything was inserted: remember where that
+                # flag lives, the path walk takes the entry back on the branch where it is false
+                if nm in ("insert", "emplace", "try_emplace"):
+                    x, p = n, n.parent
+                    while p is not None and p.k in ("ImplicitCastExpr", "ExprWithCleanups", "MaterializeTemporaryExpr", "CXXBindTemporaryExpr",
+                                                    "CXXConstructExpr") and len(p.c) == 1:
+                        x, p = p, p.parent
+                    if p is not None and p.k == "VarDecl" and p.decl:
+                        bs = p.get("bindings") or []
+                        _INSERT_FLAG[n.id] = ("binding", bs[1]["id"]) if len(bs) == 2 else ("pair", p.decl["id"])
             elif nm in MAP_DEL:
                 out.append((n, "map", -1))
             elif nm == "operator[]":
@@ -503,9 +532,23 @@ def _path_sums(f, eff, limit=4000):
         per_block.setdefault(loc[0], []).append((loc[1], n, cont, d))
     out = []
     truncated = False
-    stack = [(f.entry, (f.entry,), 0, 0, ())]
+    edge_conds = {}
+    for (bb, si, s_, cn, pol) in f.branch_edges():
+        if s_ is not None:
+            edge_conds.setdefault((bb.id, s_), []).append((cn, pol))
+    stack = [(f.entry, (f.entry,), 0, 0, (), None)]
     while stack:
-        b, seen, l, m, nodes = stack.pop()
+        b, seen, l, m, nodes, came_from = stack.pop()
+        if came_from is not None:
+            # a conditional insertion counted on the way, and the edge just taken says it did not happen
+            for (cn, pol) in edge_conds.get((came_from, b), []):
+                for x in nodes:
+                    if isinstance(x, tuple):
+                        continue
+                    fl = _INSERT_FLAG.get(x.id)
+                    if fl is not None and _insert_flag_outcome(cn, pol, fl) is False and ("undone", x.id) not in nodes:
+                        m -= 1
+                        nodes = nodes + (("undone", x.id),)
         for (_, n, cont, d) in sorted(per_block.get(b, []), key=lambda t: t[0]):
             if cont == "list":
                 l += d
@@ -513,18 +556,18 @@ def _path_sums(f, eff, limit=4000):
                 m += d
             nodes = nodes + (n,)
         if b == f.exit:
-            out.append((l, m, list(nodes)))
+            out.append((l, m, [x for x in nodes if not isinstance(x, tuple)]))
             if len(out) > limit:
                 truncated = True
                 break
             continue
         succs = [s_ for s_ in f.blocks[b].succs if s_ is not None and s_ in f.blocks]
         if not succs:
-            out.append((l, m, list(nodes)))
+            out.append((l, m, [x for x in nodes if not isinstance(x, tuple)]))
         for s_ in succs:
             if s_ in seen:
                 continue          # back edge: one iteration is enough for balance
-            stack.append((s_, seen + (s_,), l, m, nodes))
+            stack.append((s_, seen + (s_,), l, m, nodes, b))
     return out, truncated
 
 
